@@ -351,6 +351,10 @@ func writeAPI(f *sfnt.Font, api string, w io.Writer) (n int64, err error, hasN b
 	case "TTPDF":
 		n, err = f.WriteTrueTypePDF(w)
 		return n, err, true
+	case "TTPDFnil":
+		// the documented way to drop a default table: a nil override (the entry is skipped)
+		n, err = f.WriteTrueTypePDF(w, "cmap", []byte(nil), "zz", []byte{1, 2, 3})
+		return n, err, true
 	case "CFFPDF":
 		err = f.WriteOpenTypeCFFPDF(w)
 		return 0, err, false
@@ -1739,6 +1743,16 @@ func synthCases(c *Ctx, i int) {
 		l := Pick(r, []int{0, 0, 1, 2, 3, 4, 5, 7, 8, r.Range(0, 64), r.Range(0, 64), r.Range(100, 600)})
 		tabs[t] = make([]byte, l)
 	}
+	if i == 2 || i%5 == 0 {
+		// skipped entries: nil data (1-3) and tags whose length is not 4 (1-2)
+		for j := r.Range(1, 3); j > 0; j-- {
+			tabs[faultTag(r)] = nil
+		}
+		for _, t := range []string{"abc", "abcde", ""}[:r.Range(1, 2)] {
+			tabs[t] = make([]byte, r.Range(0, 9))
+		}
+		c.Stat("synthetic", "with skipped entries")
+	}
 	switch i % 7 {
 	case 6, 1:
 		tabs["zzzy"] = []byte{} // empty tables laid out last
@@ -1844,7 +1858,7 @@ func areaFaults(c *Ctx) {
 			fontCases(c, fmt.Sprintf("sub:%d:%d:simple", r.Range(2, 6), seed()), []string{"Write", "CFFPDF"}, true)
 		},
 		func() {
-			fontCases(c, fmt.Sprintf("sub:%d:%d:go:goregular", r.Range(5, 12), seed()), []string{"Write", "TTPDF"}, true)
+			fontCases(c, fmt.Sprintf("sub:%d:%d:go:goregular", r.Range(5, 12), seed()), []string{"Write", "TTPDF", "TTPDFnil"}, true)
 		},
 		func() { synthCases(c, 0) },
 		func() { synthCases(c, 1) },
@@ -1890,7 +1904,7 @@ func areaFaults(c *Ctx) {
 		case 0:
 			base := "go:" + Pick(r, []string{"goregular", "gomono", "goitalic", "gosmallcaps"})
 			spec := fmt.Sprintf("sub:%d:%d:%s", r.Range(2, 60), seed(), base)
-			apis := []string{Pick(r, []string{"Write", "TTPDF"})}
+			apis := []string{Pick(r, []string{"Write", "TTPDF", "TTPDFnil"})}
 			jobs = append(jobs, func() { fontCases(c, spec, apis, true) })
 		case 1:
 			spec := fmt.Sprintf("sub:%d:%d:simple", r.Range(1, 30), seed())
